@@ -206,3 +206,79 @@ CONTRACTS = [
 CONTRACTS[0].enum = enum_pairs("value")
 CONTRACTS[1].enum = enum_pairs("merge_state")
 CONTRACTS[2].enum = enum_pairs("value")
+
+
+# ---------------------------------------------------------------------------------------------- State.__init__, process_random_seed (C18)
+def replay_state_init(inp):
+    import lightworks as lw
+    lst = list(inp["state"])
+    s = lw.State(lst)
+    if s.s != list(inp["state"]):
+        return f"State({inp['state']}).s = {s.s}"
+    lst.append(99)
+    if s.s != list(inp["state"]):
+        return f"State(lst) shares the caller's list: after lst.append(99) the state is {s}"
+    return None
+
+
+def enum_state_init():
+    for l in ([], [0], [1, 2], [0, 0, 3]):
+        yield {"state": l}
+
+
+STATE_INIT = Contract(
+    target=f"{F}:State.__init__",
+    types={"self": "obj:State{__s:none}", "state": "list[int]"},
+    requires=[], modifies=["self.__s"],
+    ensures={
+        # the state owns its occupation list: the stored list is a NEW list with the given entries, and the argument is untouched
+        "owns_its_list": "fresh_ref(self.__s)",
+        "entries": "len(self.__s) == len(state) and forall(t, implies(0 <= t and t < len(state), at(self.__s, t) == at(state, t)))",
+        "argument_unchanged": "len(state) == old(len(state)) and forall(t, implies(0 <= t and t < len(state), at(state, t) == old(at(state, t))))",
+    },
+    raises={}, replay=replay_state_init, props=["C18", "C11"],
+)
+STATE_INIT.enum = enum_state_init
+STATE_INIT.no_callee = True       # constructor calls inside other functions inline the real __init__
+
+
+def replay_seed(inp):
+    import numpy as np
+    from lightworks.sdk.utils.random_utils import process_random_seed
+    s = inp["seed"]
+    if isinstance(s, dict):
+        return None
+    try:
+        got = process_random_seed(s)
+        raised = None
+    except TypeError:
+        got, raised = None, "TypeError"
+    ok_val = s is None or (isinstance(s, (int, float)) and not isinstance(s, bool) and float(s).is_integer())
+    if ok_val and raised:
+        return f"process_random_seed({s!r}) raised TypeError for an integral seed"
+    if not ok_val and not raised:
+        return f"process_random_seed({s!r}) accepted a value that is no integer and returned {got!r}"
+    if ok_val and (got != (None if s is None else int(s)) or (got is not None and type(got) is not int)):
+        return f"process_random_seed({s!r}) returned {got!r} of type {type(got).__name__}: not the int value of the seed"
+    return None
+
+
+def enum_seed():
+    for s in (None, 0, 1, 7, -3, 2.0, 31.0, 2.5, True, False, "3", "x"):
+        yield {"seed": s}
+
+
+SEED = Contract(
+    target="lightworks/sdk/utils/random_utils.py:process_random_seed",
+    types={"seed": ["int", "none", "bool", "real", "opaque:str"]},
+    requires=[], modifies=[],
+    ensures={
+        # what comes back is None, or the seed as an int (never the unconverted float / bool)
+        "none_stays_none": "implies(is_none(seed), is_none(result))",
+        "int_value": "implies(not is_none(seed), not is_none(result) and isinstance(result, int) and not isinstance(result, bool) and same_value(result, seed))",
+    },
+    raises={"TypeError": "not (is_none(seed) or (numeric(seed) and seed == int(seed)))"},
+    replay=replay_seed, props=["C18", "C07"],
+)
+SEED.enum = enum_seed
+CONTRACTS += [STATE_INIT, SEED]
